@@ -587,8 +587,13 @@ impl NetworkBuilder {
         let (network_event_sender, network_event_receiver) = mpsc::channel(NETWORKING_CHANNEL_SIZE);
         let (network_swarm_cmd_sender, network_swarm_cmd_receiver) =
             mpsc::channel(NETWORKING_CHANNEL_SIZE);
+        #[cfg(not(maidsafe_safe_network_verif))]
+        let local_cmd_channel_size = NETWORKING_CHANNEL_SIZE;
+        #[cfg(maidsafe_safe_network_verif)]
+        let local_cmd_channel_size =
+            crate::verif::local_cmd_channel_size().unwrap_or(NETWORKING_CHANNEL_SIZE);
         let (local_swarm_cmd_sender, local_swarm_cmd_receiver) =
-            mpsc::channel(NETWORKING_CHANNEL_SIZE);
+            mpsc::channel(local_cmd_channel_size);
 
         // Kademlia Behaviour
         let kademlia = {
